@@ -386,22 +386,23 @@ def nontrivial(payload, md):
 
 
 LEVEL_TEXT = ('Coq theorems, by induction over every packet history, about an executable model of '
-              'DMPE131Inflator::HandlePDUData/TrackSourceIfRequired and ArtNetNodeImpl::HandleDataPacket/'
-              'UpdatePortFromSource: tracked sACN sources are distinct, <= 6, each holds its last accepted frame '
-              'at the active priority (<= 200), stored sequence numbers are bytes, every merge outputs the slot-wise '
-              'maximum of exactly the tracked sources none of which (other than the sender) is older than 2.5 s, '
-              'packets with priority > 200 / ignored preview / sequence 0-19 behind / from a seventh source change '
-              'no output, terminate removes the sender at once; refinement of a text-level specification (per CID '
-              'latest in-sequence frame, priority, time, terminated; live top-priority group, <= 6): at every merge '
-              'the buffer EQUALS the text-level output for all histories satisfying stated guards. Art-Net ports '
-              'keep two slots with distinct addresses, merge HTP/LTP over slots of different senders heard within '
-              '10 s, and a third sender changes nothing. PARTIAL: the refinement guards are sufficient, not '
-              'necessary (G_flat excludes all histories with concurrently live sources at different priorities; '
-              'the hand-down, discard-without-re-merge and returning-sender departures are exhibited as Examples); '
-              'the text-level output is evaluated by the check on every generated history (key txt) with the departures '
-              'classified by TextCheck.verdict (meaning of verdicts proved, exactness of the shadow flag w.r.t. the '
-              'receiver not proved); the Art-Net text-level statement is checked per history (atext_step), not proved. Model tied to the C++ by a differential correspondence check after every packet (ASan/UBSan '
-              'build of the /repo working tree, virtual clock) and regenerated constants.')
+              'E131Inflator::DecodeHeader (options byte), DMPE131Inflator::HandlePDUData/TrackSourceIfRequired and '
+              'ArtNetNodeImpl::HandleDataPacket/UpdatePortFromSource. sACN: tracked sources distinct, <= 6, each '
+              'holding its last accepted frame at the active priority (<= 200), byte sequence numbers; every merge '
+              'is the slot-wise maximum of exactly the tracked sources; priority > 200 / ignored preview (wire bit '
+              '7) / sequence 0-19 behind / seventh source change no output; terminate (wire bit 6) removes the '
+              'sender at once. EXACT refinement of a text-level specification (c08_sacn_refines_text): after every '
+              'packet of every history (non-decreasing times, byte sequence numbers, at most six sources sharing '
+              'the top priority = G_cap) the registered buffer equals the text-level output, or departs from it '
+              'exactly as classified: hand-down gap (verdict 1), stale buffer after a non-merging packet (verdict '
+              '2), sequence window forgotten (flag d4) - the three known findings; verdict 3 is unreachable. The '
+              'same checker loop (extracted cstep) is run by the check on every generated history (SPEC key txt). '
+              'Art-Net: two slots with distinct addresses, third sender changes nothing, and exact refinement of the '
+              'text (c08_artnet_refines_text): a packet is admitted iff fewer than two other senders were heard '
+              'within 10 s and the port buffer then equals the HTP / LTP text-level output (guard: no 0.0.0.0 '
+              'sender, fixed merge mode). Model tied to the C++ by a differential correspondence check after every '
+              'packet (ASan/UBSan build of the /repo working tree, virtual clock, framing-layer bytes through the '
+              'real inflators) and regenerated constants.')
 LEVEL_NOTE = ('Trusted: Coq kernel, extraction (ExtrOcamlBasic), OCaml/C++ glue incl. the clock_gettime/'
               'gettimeofday interposers and MockUDPSocket, generator coverage of the correspondence; model = code '
               'is validated by differential testing, not proved. DmxBuffer is used through its list semantics '
